@@ -52,7 +52,7 @@ def run(ctx, res):
         if v.variant == "Ok":
             n_ok += 1
             c = v.fields["0"]
-            res.ob(solver.entails(s.pc, f_and(flit(ge(LEN, 1)), flit(eq(o, LEN)))), "tiling", d,
+            res.ob(solver.entails(s.pc, f_and(flit(ge(LEN, 1)), flit(eq(vr["final"], LEN)))), "tiling", d,
                    "accepted => non-empty and the chain of length fields ends exactly at len", pc=s.pc)
             good = isinstance(c, StructV) and same_view(s.pc, c.fields.get("data"), inp) and \
                 isinstance(c.fields.get("offset"), IntV) and c.fields["offset"].l == lin(0) and \
